@@ -152,6 +152,15 @@ def _roundtrip(case, rec, tmp):
             "design/max_eft": case["max_eft"], "design/min_eft": case["min_eft"],
             "geometric_constraints/method": case["method"], "geometric_constraints/max_height": case["hmax"],
             "geometric_constraints/min_height": case["hmin"]}
+    # optional entries: what was given must be in the file, what was not given must be absent (or its default)
+    dsec = doc1.get("design", {})
+    if bool(dsec.get("continue_if_design_unmet", False)) != bool(case["continue"]):
+        raise Violation(f"written file has design/continue_if_design_unmet = {dsec.get('continue_if_design_unmet', '<absent>')!r}, "
+                        f"configured through the API: {case['continue']!r} (max_boreholes {case['max_boreholes']!r})",
+                        sig={"kind": "file_differs_from_configuration", "field": "design/continue_if_design_unmet"})
+    if dsec.get("max_boreholes") != case["max_boreholes"]:
+        raise Violation(f"written file has design/max_boreholes = {dsec.get('max_boreholes', '<absent>')!r}, configured through the "
+                        f"API: {case['max_boreholes']!r}", sig={"kind": "file_differs_from_configuration", "field": "design/max_boreholes"})
     for path, exp in want.items():
         sec, key = path.split("/")
         got = doc1.get(sec, {}).get(key)
